@@ -97,7 +97,11 @@ def py_tol(t, shape_tail):
     if k == "num":
         return float(t[1])
     if k == "comp":
-        return np.array([float(x) for x in t[1]], dtype=float).reshape(shape_tail)
+        arr = np.array([float(x) for x in t[1]], dtype=float)
+        try:
+            return arr.reshape(shape_tail)
+        except ValueError:
+            return arr        # does not fit the field shape: the predicate has to cope with it (shape mismatch / PredicateError)
     if k == "scaled":
         return ScaledTolerance(float(t[1]))
     if k == "scaledcomp":
@@ -174,6 +178,8 @@ def resolve_tol_oracle(t, c, n_comp, which):
     if k == "num":
         return lambda i: Fr(t[1])
     if k == "comp":
+        if len(t[1]) != n_comp:
+            return None       # tolerance array does not fit the (reconciled) shape: undefined by the statement
         return lambda i: Fr(t[1][i % n_comp])
     if k == "scaled":
         if not va or not vb:
@@ -892,6 +898,8 @@ def run_c10(ctx):
     for c, g in groups:
         if c["pred"] == "exact" or "ab" not in g or "ba" not in g:
             continue
+        if c["a"]["shape"] != c["b"]["shape"] and "comp" in (c["rel"][0], c["abs"][0]):
+            continue      # a per-component tolerance array fits only one of the two shapes
         tail = tuple(recon_shape(c)[1:])
         kw = {}
         r, t = py_tol(c["rel"], tail), py_tol(c["abs"], tail)
@@ -916,7 +924,7 @@ def run_c10(ctx):
         for self_name in ("aa", "bb"):
             if self_name in g and impls[g[self_name]] != 1 and (finite_num or c["pred"] != "fuzzy"):
                 v = cases[g[self_name]]
-                if v["a"]["vals"] or True:
+                if oracle(v) is not None:     # (None: the given tolerance array does not fit this array's shape)
                     ctx.violation("E4", f"reflexivity: an array does not compare equal to itself (result {impls[g[self_name]]})",
                                   {k: v[k] for k in ("pred", "a", "b", "rel", "abs")}, law="reflexive")
         if "ab" in g and "ba" in g and impls[g["ab"]] != impls[g["ba"]]:
